@@ -83,9 +83,9 @@ var (
 	constNames = []string{"K0", "K1", "IOS", "Good", "k_2", "Const.X", "Größe", "格"}
 	opNames    = []string{"f0", "f1", "g2", "h3", "calc.it", "is_child", "fi", "AND", "Or", "Not", "IN", "größe", "検査", "F0", "calc_it", "calcit"}
 	intPool    = []int64{0, 1, -1, 2, 3, 5, 7, 10, 18, 100, -100, 9999, 10000, math.MaxInt64, math.MinInt64, 4000, 127, 128, 255, 256, 32767, 32768, -32768, math.MaxInt32, math.MinInt32}
-	strPlain   = []string{"", "a", "b", "fi", "if", "DNE", "true", "nil", "and", "en-US", "zh", "Male", "1.2.3", "2.3", "10.0.1", "2021-01-01", "2021-01-01 11:58:56", "2020-02-29", "hello", "你好"}
+	strPlain   = []string{"", "a", "b", "fi", "if", "DNE", "true", "nil", "and", "en-US", "zh", "Male", "1.2.3", "2.3", "10.0.1", "2021-01-01", "2021-01-01 11:58:56", "2020-02-29", "hello", "你好", "2021-01-01T11:58:56+07:00", "2020-02-29T23:59:59-05:30", "2021-06-30T00:00:00Z"}
 	strWeird   = []string{"a b", "(x)", ";;c", "tab\there", "line\nbreak", "back\\slash", "x;y", " lead", "👋~ 👶", "[1,2]", "1.2.x", "1.10000", "2021-13-01", "2021-02-30", "99999.1", "1.2.3.4", "2.3.4.beta", "1.2.3.20240115", "2.3.4.", "7.8.x.1", "cr\r\nlf", "\r"}
-	layoutPool = []string{"2006-01-02", "2006-01-02 15:04:05", "2006/01/02", "20060102", "02.01.2006 15:04"}
+	layoutPool = []string{"2006-01-02", "2006-01-02 15:04:05", "2006/01/02", "20060102", "02.01.2006 15:04", "2006-01-02T15:04:05Z07:00"}
 )
 
 // Gen holds the state of one generation.
@@ -927,6 +927,12 @@ func (g *Gen) dateArg(layout string, d int) *Node {
 		out = strconv.Itoa(Y) + "/" + p2(M) + "/" + p2(D)
 	case "20060102":
 		out = strconv.Itoa(Y) + p2(M) + p2(D)
+	case "2006-01-02T15:04:05Z07:00":
+		zone := "Z"
+		if r.P(0.7) {
+			zone = PickS(r, []string{"+", "-"}) + p2(r.Range(0, 14)) + ":" + PickS(r, []string{"00", "30", "45"})
+		}
+		out = strconv.Itoa(Y) + "-" + p2(M) + "-" + p2(D) + "T" + p2(h) + ":" + p2(m) + ":" + p2(s) + zone
 	default:
 		out = p2(D) + "." + p2(M) + "." + strconv.Itoa(Y) + " " + p2(h) + ":" + p2(m)
 	}
